@@ -251,6 +251,27 @@ func foreignLayout(r *Run, real bool) {
 			r.Probe("volume-file-copied")
 		}
 	}
+	if t.Bool(1, 5, "sibling-set-file") {
+		// a file of ANOTHER recovery set whose name matches '<base>.*.par2'
+		// (the index or a volume of a sibling set such as '<base>.web.par2'):
+		// it holds no packet of this set at all
+		var sb []byte
+		sb = append(sb, foreign.Creator...)
+		for _, p := range foreign.CriticalPackets() {
+			sb = append(sb, p...)
+		}
+		if t.Bool(1, 2, "with-recovery") {
+			sb = append(sb, foreign.Recovery[0]...)
+			sb = append(sb, foreign.Recovery[1]...)
+		}
+		name := base + "." + []string{"web", "aaa", "zzz", "vol99+02", "0"}[t.Draw(5, "sibling-token")] + ".par2"
+		if _, clash := w.Created[filepath.Join(dir, name)]; !clash {
+			d.Put(filepath.Join(dir, name), sb)
+			w.Bystanders[filepath.Join(dir, name)] = sb
+			features["sibling-set"] = true
+			r.Probe("sibling-set-file-beside-the-index")
+		}
+	}
 	for p, b := range w.Created {
 		d.Put(p, b)
 		// the reference reader must read back what the reference writer wrote
